@@ -21,6 +21,10 @@ structure PInv (scopes : List Nat) (c pre : Chain) (st : State) : Prop where
   txs_rec : ∀ h blk, (h, blk) ∈ pre → ∀ tx ∈ blk, touches scopes (wops scopes (allTxs c)) tx = true →
     (tx.id, h) ∈ st.txs
   txs_ids : ∀ p ∈ st.txs, ∃ t ∈ allTxs pre, t.id = p.1
+  /-- no recovered output is leased (`LeaseOutput`) and the store holds no unmined transaction: `UnspentOutputs`, which
+      `recovery()` hands to `Resurrect`, omits such outputs (see `C16_resumed_misses_spend_of_hidden_output`) -/
+  no_lease : st.leased = []
+  no_unmined : st.unmined = []
 
 /-- In-memory part (`RecoveryState`). -/
 structure MInv (W : Nat) (scopes : List Nat) (invalid : BranchId → List Nat) (c pre : Chain) (st : State) : Prop where
@@ -155,7 +159,7 @@ theorem skip_block {W : Nat} {scopes : List Nat} {invalid : BranchId → List Na
   have eT : allTxs c = allTxs p ++ blk ++ allTxs q := by rw [e]; exact allTxs_split p h blk q
   have hw0 := wops_untouched scopes _ blk hu
   constructor
-  · refine ⟨hp.scopes_eq, ?_, ?_, ?_, ?_⟩
+  · refine ⟨hp.scopes_eq, ?_, ?_, ?_, ?_, hp.no_lease, hp.no_unmined⟩
     · intro k hk hs
       rw [allTxs_snoc, paidKeys_append] at hk
       rcases List.mem_append.mp hk with hk | hk
@@ -214,14 +218,14 @@ theorem hit_block {W : Nat} {scopes : List Nat} {invalid : BranchId → List Nat
   obtain ⟨⟨ts, us', r1⟩, r2, r3, r4, r5⟩ := relevantFold_spec hwf h blk (allTxs p) (allTxs q)
     { st with branches := brs, next := nx, used := us,
               watched := f.outpoints.foldl (fun w op => w.insert op) st.watched }
-    eT hp.scopes_eq hp.credits hp.txs_ids (fun k hk hs => (hknown k hk hs).1)
+    eT hp.scopes_eq hp.credits hp.txs_ids (fun k hk hs => (hknown k hk hs).1) hp.no_lease hp.no_unmined
   rw [f1]
   generalize (blk.filter (touches scopes (wops scopes (allTxs c)))).foldl (fun st tx => addRelevantTx st tx h)
     { st with branches := brs, next := nx, used := us,
               watched := f.outpoints.foldl (fun w op => w.insert op) st.watched } = st3 at r1 r2 r3 r4 r5
   subst r1
   constructor
-  · refine ⟨hp.scopes_eq, ?_, ?_, ?_, ?_⟩
+  · refine ⟨hp.scopes_eq, ?_, ?_, ?_, ?_, hp.no_lease, hp.no_unmined⟩
     · intro k hk hs
       rw [allTxs_snoc, paidKeys_append] at hk
       rcases List.mem_append.mp hk with hk | hk
@@ -327,7 +331,7 @@ theorem expState_inv {W : Nat} {scopes : List Nat} {invalid : BranchId → List 
   unfold expState
   generalize expandAll invalid st = st1 at e1 e2 e3
   subst e1
-  exact ⟨⟨hp.scopes_eq, hp.paid, hp.credits, hp.txs_rec, hp.txs_ids⟩,
+  exact ⟨⟨hp.scopes_eq, hp.paid, hp.credits, hp.txs_rec, hp.txs_ids, hp.no_lease, hp.no_unmined⟩,
     ⟨hm.window_eq, e2, hm.watched_sub, hm.watched_sup⟩, e3⟩
 
 /-- `recoverScopedAddresses` over one batch. -/
@@ -406,8 +410,12 @@ theorem resurrect_inv {W : Nat} {scopes : List Nat} {invalid : BranchId → List
     (e : c = p ++ q) (hp : PInv scopes c p st) (hw : st.window = W) :
     PInv scopes c p (resurrect invalid st) ∧ MInv W scopes invalid c p (resurrect invalid st) := by
   have eT : allTxs c = allTxs p ++ allTxs q := by rw [e, allTxs_append]
+  have hh : ∀ op, hidden st op = false := by
+    intro op; simp [hidden, hp.no_lease, hp.no_unmined]
+  have hwat : (resurrect invalid st).watched = (st.credits.filter (fun c => !c.spent)).map (·.op) := by
+    simp only [resurrect, hh, Bool.not_false, Bool.and_true]
   constructor
-  · exact ⟨hp.scopes_eq, hp.paid, hp.credits, hp.txs_rec, hp.txs_ids⟩
+  · exact ⟨hp.scopes_eq, hp.paid, hp.credits, hp.txs_rec, hp.txs_ids, hp.no_lease, hp.no_unmined⟩
   · refine ⟨hw, ?_, ?_, ?_⟩
     · intro br hbr
       have hmem : br ∈ branchIds st.scopes := by rw [hp.scopes_eq]; exact (mem_branchIds scopes br).mpr hbr
@@ -419,14 +427,16 @@ theorem resurrect_inv {W : Nat} {scopes : List Nat} {invalid : BranchId → List
       obtain ⟨h1, _, h3, h4⟩ := resurrect_ok W (invalid br) (st.nextOf br)
       exact ⟨h1, h4, h3⟩
     · intro op hop
-      simp only [resurrect, hp.credits, specCredits, List.mem_map, List.mem_filter] at hop
+      rw [hwat] at hop
+      simp only [hp.credits, specCredits, List.mem_map, List.mem_filter] at hop
       obtain ⟨cr, ⟨⟨pr, hpr, rfl⟩, _⟩, rfl⟩ := hop
       rw [eT, wops_append]
       exact List.mem_append_left _ (List.mem_map.mpr ⟨pr, hpr, rfl⟩)
     · intro op hop hsp
       simp only [wops, List.mem_map] at hop
       obtain ⟨pr, hpr, rfl⟩ := hop
-      simp only [resurrect, hp.credits, specCredits, List.mem_map, List.mem_filter]
+      rw [hwat]
+      simp only [hp.credits, specCredits, List.mem_map, List.mem_filter]
       exact ⟨⟨pr.1, pr.2, spentIn (allTxs p) pr.1⟩, ⟨⟨pr, hpr, rfl⟩, by simp [hsp]⟩, rfl⟩
 
 /-- `Wallet.recovery`: any batch size, any resume points. -/
@@ -472,7 +482,7 @@ theorem recoverChain_spec {W : Nat} {scopes : List Nat} {invalid : BranchId → 
       exact ih _ _ _ (n + 1) e2 (by simp; omega) hl2 hstep.1 hstep.2
 
 theorem init_inv (W : Nat) (scopes : List Nat) (c : Chain) : PInv scopes c [] (State.init W scopes) := by
-  refine ⟨rfl, ?_, rfl, ?_, ?_⟩
+  refine ⟨rfl, ?_, rfl, ?_, ?_, rfl, rfl⟩
   · intro k h; simp [allTxs, paidKeys] at h
   · intro h blk hm; cases hm
   · intro x hx; cases hx
@@ -502,9 +512,12 @@ theorem balance_fold (txs : List Tx) : ∀ (l : List (OutPoint × Nat)) (acc : N
     · simp only [List.map_cons, List.filter_cons, hs, Bool.not_true, Bool.false_eq_true, if_false]
       exact ih acc
 
-theorem balance_spec (scopes : List Nat) (txs : List Tx) (st : State) (h : st.credits = specCredits scopes txs) :
-    balance st = ledgerBalance scopes txs := by
-  unfold balance ledgerBalance
+theorem balance_spec (scopes : List Nat) (txs : List Tx) (st : State) (h : st.credits = specCredits scopes txs)
+    (hl : st.leased = []) (hu : st.unmined = []) : balance st = ledgerBalance scopes txs := by
+  have hh : ∀ op, hidden st op = false := by
+    intro op; simp [hidden, hl, hu]
+  unfold balance spendable ledgerBalance
+  simp only [hh, Bool.not_false, Bool.and_true]
   rw [h, specCredits, balance_fold]
   simp
 
@@ -596,7 +609,7 @@ theorem checkLA_sound (W : Nat) (scopes : List Nat) (c : Chain) (h : checkLA W s
 /-- What a finished recovery over `p` left in the database is a valid starting point for the chain `p ++ rest`. -/
 theorem pinv_extend {scopes : List Nat} {invalid : BranchId → List Nat} {p rest : Chain} {st : State}
     (hwf : ChainWF scopes invalid (p ++ rest)) (hp : PInv scopes p p st) : PInv scopes (p ++ rest) p st := by
-  refine ⟨hp.scopes_eq, hp.paid, hp.credits, ?_, hp.txs_ids⟩
+  refine ⟨hp.scopes_eq, hp.paid, hp.credits, ?_, hp.txs_ids, hp.no_lease, hp.no_unmined⟩
   intro h blk hmem tx htx ht
   apply hp.txs_rec h blk hmem tx htx
   simp only [touches, Bool.or_eq_true, List.any_eq_true, List.contains_iff_mem] at ht ⊢
@@ -616,7 +629,7 @@ theorem pinv_extend {scopes : List Nat} {invalid : BranchId → List Nat} {p res
 
 theorem pinv_window {scopes : List Nat} {c p : Chain} {st : State} (W : Nat) (hp : PInv scopes c p st) :
     PInv scopes c p { st with window := W } :=
-  ⟨hp.scopes_eq, hp.paid, hp.credits, hp.txs_rec, hp.txs_ids⟩
+  ⟨hp.scopes_eq, hp.paid, hp.credits, hp.txs_rec, hp.txs_ids, hp.no_lease, hp.no_unmined⟩
 
 theorem checkLAFrom_sound (W : Nat) (scopes : List Nat) (n : Nat) (c : Chain) (h : checkLAFrom W scopes n c = true) :
     LookAheadFrom W scopes n c := by
